@@ -4,6 +4,7 @@ import (
 	"fmt"
 	"go/token"
 	"go/types"
+	"sort"
 	"strings"
 
 	"golang.org/x/tools/go/ssa"
@@ -242,6 +243,38 @@ func analyseResolver(c *core.Ctx, fn *ssa.Function, rules map[string]bool) {
 	// guard table
 	guardBad := 0
 	cases := map[string]bool{}
+	if boundKey == "" {
+		// the bound is what the level is compared with: a parameter or a configuration value if there is one,
+		// a constant only if the level is compared with nothing else
+		var consts, others []string
+		for _, tm := range terms {
+			for k := range tm.State.PC {
+				if strings.HasPrefix(k, "ord(") && strings.Contains(k, levelKey) {
+					parts := splitTop(strings.TrimSuffix(strings.TrimPrefix(k, "ord("), ")"))
+					if len(parts) != 2 {
+						continue
+					}
+					other := parts[0]
+					if other == levelKey {
+						other = parts[1]
+					}
+					if strings.HasPrefix(other, "c:") {
+						consts = append(consts, other)
+					} else {
+						others = append(others, other)
+					}
+				}
+			}
+		}
+		sort.Strings(consts)
+		sort.Strings(others)
+		switch {
+		case len(others) > 0:
+			boundKey = others[0]
+		case len(consts) > 0:
+			boundKey = consts[len(consts)-1]
+		}
+	}
 	for _, tm := range terms {
 		if tm.Kind != "return" || len(tm.Ret) != 1 {
 			report("C11-R2", "guard", tm.Pos, "resolver ends in %s", tm.Kind)
@@ -316,6 +349,10 @@ func analyseResolver(c *core.Ctx, fn *ssa.Function, rules map[string]bool) {
 				}
 			}
 		}
+	}
+	if strings.HasPrefix(boundKey, "c:") {
+		report("C11-R2", "guard", fn.Pos(), "the depth is compared with the constant %s, not with the limit the caller supplies: a configured limit other than that constant is ignored", strings.TrimPrefix(boundKey, "c:"))
+		guardBad++
 	}
 	byRule := map[string]int{}
 	for _, f := range finds {
